@@ -78,11 +78,12 @@ Definition c08_cfg : cfg := mkCfg 4096 0 0 0.
    shard anywhere in the engine (Put / Get / Delete of the sharded index, sizes, snapshots for iterators) and every
    access to the engine's active-file pointer and file set, as extracted from the current source by translator T2c
    with the locks held there, follows the lockset discipline - an index operation runs under the lock of its own
-   shard (exclusively when it changes the shard), the file set is read under the engine lock and changed under it
-   exclusively.  (The full table is the subject of C09.) *)
+   shard (exclusively when it changes the shard), the shard table itself is never changed after construction, the file set
+   is read under the engine lock and changed under it exclusively.  (The full table is the subject of C09.) *)
 Theorem C08_index_and_file_set_operations_are_atomic :
   let sel := fun a => Nat.eqb (LockSet.a_loc a) GenAccess.loc_shard_index || Nat.eqb (LockSet.a_loc a) GenAccess.loc_db_active_file
-                      || Nat.eqb (LockSet.a_loc a) GenAccess.loc_db_older_files in
+                      || Nat.eqb (LockSet.a_loc a) GenAccess.loc_db_older_files
+                      || existsb (Nat.eqb (LockSet.a_loc a)) GenAccess.locs_sharded_index_fields in
   LockSet.lockset_ok (filter sel GenAccess.gen_accesses) = true /\
   Nat.leb 6 (length (filter (fun a => Nat.eqb (LockSet.a_loc a) GenAccess.loc_shard_index) GenAccess.gen_accesses)) = true /\
   existsb (fun a => Nat.eqb (LockSet.a_loc a) GenAccess.loc_shard_index && LockSet.a_write a) GenAccess.gen_accesses = true /\
